@@ -45,7 +45,7 @@ def space_time(draw, lay):
 
 @st.composite
 def spec1d_case(draw, layouts=LAYOUTS, min_nf=2, max_nf=40, kinds=VALUE_KINDS,
-                allow_zero_f=True, moments="disc", max_len=4, min_len=1, history=False):
+                allow_zero_f=True, moments="disc", max_len=4, min_len=1, history=False, dtypes=False):
     f = draw(freq_grid(min_nf, max_nf, allow_zero=allow_zero_f))
     lay = draw(layout(layouts, max_len=max_len, min_len=min_len))
     n = int(np.prod(lay["shape"])) if lay["shape"] else 1
@@ -86,13 +86,17 @@ def spec1d_case(draw, layouts=LAYOUTS, min_nf=2, max_nf=40, kinds=VALUE_KINDS,
     case.update(draw(space_time(lay)))
     if history and draw(st.integers(0, 2)) == 0:
         case["history"] = draw(st.sampled_from(HISTORIES))
+    if dtypes and draw(st.integers(0, 3)) == 0:
+        # integer storage only: the library's arithmetic promotes integers to float64, so every tolerance of the
+        # float64 case applies; float32 storage would need float32-level tolerances in every clause (used in C05 only)
+        quantise(case, draw(st.sampled_from(["int64", "int32"] if dtypes is True else list(dtypes))))
     return case
 
 
 @st.composite
 def spec2d_case(draw, layouts=LAYOUTS, min_nf=2, max_nf=24, min_nd=8, max_nd=144,
                 uniform_only=False, allowed_nd=None, kinds=VALUE_KINDS, allow_zero_f=True,
-                max_len=3, max_cells=40000, min_len=1, relabel=False, history=False):
+                max_len=3, max_cells=40000, min_len=1, relabel=False, history=False, dtypes=False):
     f = draw(freq_grid(min_nf, max_nf, allow_zero=allow_zero_f))
     dg = draw(dir_grid(min_nd, max_nd, uniform_only=uniform_only, allowed_n=allowed_nd, relabel=relabel))
     nf, nd = len(f), len(dg["dir"])
@@ -113,6 +117,10 @@ def spec2d_case(draw, layouts=LAYOUTS, min_nf=2, max_nf=24, min_nd=8, max_nd=144
     case.update(draw(space_time(lay)))
     if history and draw(st.integers(0, 2)) == 0:
         case["history"] = draw(st.sampled_from(HISTORIES))
+    if dtypes and draw(st.integers(0, 3)) == 0:
+        # integer storage only: the library's arithmetic promotes integers to float64, so every tolerance of the
+        # float64 case applies; float32 storage would need float32-level tolerances in every clause (used in C05 only)
+        quantise(case, draw(st.sampled_from(["int64", "int32"] if dtypes is True else list(dtypes))))
     return case
 
 
@@ -138,6 +146,24 @@ def case_arrays(case):
             out[m] = np.array(case[m], dtype=float).reshape(n, nf)
     out["depth"] = np.array(case["depth"], dtype=float).reshape(n)
     return out
+
+
+def quantise(case, dtype):
+    """Store the variance density (and, for float32, the 1D moments) in another dtype: the case then holds exactly
+    the values that dtype can represent (integers 0..1000 for the integer types, NaN -> 0), so oracles computed from
+    the case in float64 refer to what the object stores."""
+    e = np.array(case["e"], dtype=float)
+    if dtype.startswith("int"):
+        m = np.nanmax(e) if e.size and np.isfinite(np.nanmax(e)) and np.nanmax(e) > 0 else 1.0
+        e = np.nan_to_num(np.round(e / m * 1000.0), nan=0.0)
+    else:
+        e = e.astype(dtype).astype(float)
+        e = np.where(np.abs(e) < 1e-30, 0.0, e)            # no float32 subnormals
+        if case["kind"] != "2d":
+            for m_ in ("a1", "b1", "a2", "b2"):
+                case[m_] = np.array(case[m_], dtype=float).astype(dtype).astype(float).tolist()
+    case["e"] = e.tolist()
+    case["dtype"] = dtype
 
 
 HISTORIES = ("item_assignment", "dataset_assignment")
@@ -233,10 +259,11 @@ def _build_fresh(case):
               "depth": (lead, dep)}
     full = tuple(shape) + tuple(sshape)
     dims = lead + sdims
-    data_vars = {"variance_density": (dims, a["e"].reshape(full).copy())}
+    dt = case.get("dtype") or "float64"
+    data_vars = {"variance_density": (dims, a["e"].reshape(full).astype(dt))}
     if not two_d:
         for m in ("a1", "b1", "a2", "b2"):
-            data_vars[m] = (dims, a[m].reshape(full).copy())
+            data_vars[m] = (dims, a[m].reshape(full).astype(dt if dt == "float32" else "float64"))
     data_vars.update(dv)
     ds = xarray.Dataset(data_vars=data_vars, coords=coords)
     return (FrequencyDirectionSpectrum if two_d else FrequencySpectrum)(ds)
